@@ -471,6 +471,8 @@ class HInterp:
             return ("c", r)
         if x[0] == "floordiv" and _is_nblocks(x, self.B) and not hb:
             return ("c", 0)
+        if x[0] == "leaf" and x[1] == "len" and not hb:
+            return ("c", r)            # no whole block: the length is the residue
         if x[0] in ("c", "leaf"):
             return x
         return tuple(self._subst_case(y) if isinstance(y, tuple) else y for y in x)
